@@ -1,4 +1,5 @@
 import PydapModel.FileHandlers
+import Mathlib.Data.List.Nodup
 /-
   Helper lemmas for C20: the scope walk of the repaired `group_fqn` finds the nearest enclosing
   declaration; membership lemmas for the handler's entry list.
@@ -55,5 +56,215 @@ theorem find_of_nodup (l : List Var) (v : Var) (hn : (l.map Var.name).Nodup) (hv
         intro he
         exact hn.1 (he ▸ List.mem_map_of_mem h)
       simp [hne, ih hn.2 h]
+
+/-! ### exactly one entry per file variable (round 7) -/
+/-- the root variables the handler reads eagerly, as `__init__` finds them: for every root dimension, the root
+    variable of that name -/
+def coordVars (f : NcFile) : List Var :=
+  (f.root.dims.map Prod.fst).filterMap fun d => f.root.vars.find? fun v => v.name = d
+
+theorem mem_coordVars (f : NcFile) (hn : (f.root.vars.map Var.name).Nodup) (v : Var) :
+    v ∈ coordVars f ↔ v ∈ f.root.vars.filter (isCoord f) := by
+  simp only [coordVars, List.mem_filterMap, List.mem_filter, isCoord, List.contains_iff_mem]
+  constructor
+  · rintro ⟨d, hd, hf⟩
+    have h1 := List.mem_of_find?_eq_some hf
+    have h2 : v.name = d := by simpa using List.find?_some hf
+    exact ⟨h1, h2 ▸ hd⟩
+  · rintro ⟨hv, hd⟩
+    exact ⟨v.name, hd, find_of_nodup _ v hn hv⟩
+
+theorem coordVars_nodup (f : NcFile) (hd : (f.root.dims.map Prod.fst).Nodup) : (coordVars f).Nodup := by
+  apply List.Nodup.filterMap _ hd
+  intro a a' b hb hb'
+  have h1 : b.name = a := by simpa using List.find?_some (Option.mem_def.mp hb)
+  have h2 : b.name = a' := by simpa using List.find?_some (Option.mem_def.mp hb')
+  rw [← h1, ← h2]
+
+theorem coordVars_perm (f : NcFile) (hn : (f.root.vars.map Var.name).Nodup) (hd : (f.root.dims.map Prod.fst).Nodup) :
+    (coordVars f).Perm (f.root.vars.filter (isCoord f)) :=
+  (List.perm_ext_iff_of_nodup (coordVars_nodup f hd) ((List.Nodup.of_map _ hn).filter _)).mpr
+    (mem_coordVars f hn)
+
+
+
+
+
+def Entry.varKey : Entry → Option (List String × String)
+  | .var p n _ _ _ _ _ => some (p, n)
+  | .group .. => none
+
+/-- the variables of the file: (group path, name), root first, then group by group -/
+def fileVarKeys (f : NcFile) : List (List String × String) :=
+  f.root.vars.map (fun v => (([] : List String), v.name)) ++
+    f.groups.flatMap fun g => g.vars.map fun v => (g.path, v.name)
+
+theorem netcdfEntries_eq (f : NcFile) : netcdfEntries f =
+    Entry.group [] f.root.dims f.root.attrs ::
+    ((f.root.vars.filter fun v => !isCoord f v).map fun v =>
+        Entry.var [] v.name v.ty v.shape (v.dims.map fun d => (([] : List String), d)) v.attrs true)
+    ++ f.groups.flatMap (groupEntries f)
+    ++ (coordVars f).map fun v =>
+        Entry.var [] v.name v.ty v.shape (v.dims.map fun d => (([] : List String), d)) v.attrs false := rfl
+
+theorem filterMap_varKey_map (l : List Var) (P : List String) (g : Var → List FQN) (a : Var → List (String × String)) (b : Var → Bool) :
+    (l.map fun v => Entry.var P v.name v.ty v.shape (g v) (a v) (b v)).filterMap Entry.varKey
+      = l.map fun v => (P, v.name) := by
+  induction l with
+  | nil => rfl
+  | cons v vs ih => simp only [List.map_cons, List.filterMap_cons, Entry.varKey, ih]
+
+theorem varKeys_groupEntries (f : NcFile) (g : Grp) :
+    (groupEntries f g).filterMap Entry.varKey = g.vars.map fun v => (g.path, v.name) := by
+  simp only [groupEntries, mkVar, List.filterMap_cons, Entry.varKey]
+  exact filterMap_varKey_map g.vars g.path _ _ _
+
+theorem varKeys_groups (f : NcFile) (gs : List Grp) :
+    (gs.flatMap (groupEntries f)).filterMap Entry.varKey = gs.flatMap fun g => g.vars.map fun v => (g.path, v.name) := by
+  induction gs with
+  | nil => rfl
+  | cons g gs ih => simp only [List.flatMap_cons, List.filterMap_append, varKeys_groupEntries, ih]
+
+theorem varKeys_perm (f : NcFile) (hn : (f.root.vars.map Var.name).Nodup) (hd : (f.root.dims.map Prod.fst).Nodup) :
+    ((netcdfEntries f).filterMap Entry.varKey).Perm (fileVarKeys f) := by
+  rw [netcdfEntries_eq]
+  simp only [List.filterMap_cons, Entry.varKey, List.filterMap_append, varKeys_groups, fileVarKeys]
+  rw [filterMap_varKey_map, filterMap_varKey_map]
+  -- A ++ G ++ C ~ (A ++ C) ++ G ~ vars ++ G
+  have hc := (coordVars_perm f hn hd).map (fun v : Var => (([] : List String), v.name))
+  have hsplit : ((f.root.vars.filter fun v => !isCoord f v) ++ f.root.vars.filter (isCoord f)).Perm f.root.vars := by
+    have := List.filter_append_perm (fun v => !isCoord f v) f.root.vars
+    simpa using this
+  have h1 := (hsplit.map (fun v : Var => (([] : List String), v.name)))
+  rw [List.map_append] at h1
+  refine List.Perm.trans ?_ (List.Perm.append_right _ h1)
+  rw [List.append_assoc, List.append_assoc]
+  exact List.Perm.append_left _ (List.perm_append_comm.trans (hc.append_right _))
+
+
+theorem resolveDim_root (f : NcFile) (d : String) : resolveDim f [] d = ([], d) := rfl
+
+/-- every entry of the handler's dataset comes from the file: a group entry, a root variable, or a variable of a group -/
+theorem entries_sound (f : NcFile) (e : Entry) (he : e ∈ netcdfEntries f) :
+    (e = .group [] f.root.dims f.root.attrs ∨
+      ∃ g ∈ f.groups, e = .group g.path g.dims (g.attrs.filter fun a => a.1 ≠ "path")) ∨
+    (∃ v ∈ f.root.vars,
+      e = .var [] v.name v.ty v.shape (v.dims.map (resolveDim f [])) v.attrs (!isCoord f v)) ∨
+    (∃ g ∈ f.groups, ∃ v ∈ g.vars,
+      e = .var g.path v.name v.ty v.shape (v.dims.map (resolveDim f g.path))
+        (v.attrs.filter fun a => a.1 ≠ "path") true) := by
+  rw [netcdfEntries_eq] at he
+  simp only [List.mem_cons, List.mem_append, List.mem_map, List.mem_filter, List.mem_flatMap] at he
+  rcases he with ((h | ⟨v, ⟨hv, hc⟩, rfl⟩) | ⟨g, hg, hge⟩) | ⟨v, hv, rfl⟩
+  · exact Or.inl (Or.inl h)
+  · refine Or.inr (Or.inl ⟨v, hv, ?_⟩)
+    have hc' : isCoord f v = false := by simpa using hc
+    simp [hc', resolveDim_root]
+  · simp only [groupEntries, List.mem_cons, List.mem_map] at hge
+    rcases hge with h | ⟨v, hv, rfl⟩
+    · exact Or.inl (Or.inr ⟨g, hg, h⟩)
+    · exact Or.inr (Or.inr ⟨g, hg, v, hv, rfl⟩)
+  · refine Or.inr (Or.inl ⟨v, ?_, ?_⟩)
+    · simp only [coordVars, List.mem_filterMap] at hv
+      obtain ⟨d, _, hf⟩ := hv
+      exact List.mem_of_find?_eq_some hf
+    · have hc' : isCoord f v = true := by
+        simp only [coordVars, List.mem_filterMap] at hv
+        obtain ⟨d, hd, hf⟩ := hv
+        have h2 : v.name = d := by simpa using List.find?_some hf
+        simp [isCoord, h2, hd]
+      simp [hc', resolveDim_root]
+
+/-! ### the variable entries as a whole, up to order (round 7) -/
+def Entry.isVar : Entry → Bool
+  | .var .. => true
+  | .group .. => false
+
+/-- what the property demands, as a list: one entry per file variable — root variables with their own dimension tuple
+    qualified by the root, lazy unless named like a root dimension; group variables under their group's path with
+    nearest-scope dimension names and their attributes minus `path` -/
+def expectedVarEntries (f : NcFile) : List Entry :=
+  (f.root.vars.map fun v =>
+      Entry.var [] v.name v.ty v.shape (v.dims.map (resolveDim f [])) v.attrs (!isCoord f v)) ++
+  f.groups.flatMap fun g => g.vars.map fun v =>
+      Entry.var g.path v.name v.ty v.shape (v.dims.map (resolveDim f g.path))
+        (v.attrs.filter fun a => a.1 ≠ "path") true
+
+theorem filter_isVar_map (l : List Var) (e : Var → Entry) (h : ∀ v, (e v).isVar = true) :
+    (l.map e).filter Entry.isVar = l.map e := by
+  apply List.filter_eq_self.mpr
+  intro x hx
+  obtain ⟨v, _, rfl⟩ := List.mem_map.mp hx
+  exact h v
+
+theorem varEntries_groups (f : NcFile) (gs : List Grp) :
+    (gs.flatMap (groupEntries f)).filter Entry.isVar = gs.flatMap fun g => g.vars.map fun v =>
+      Entry.var g.path v.name v.ty v.shape (v.dims.map (resolveDim f g.path))
+        (v.attrs.filter fun a => a.1 ≠ "path") true := by
+  induction gs with
+  | nil => rfl
+  | cons g gs ih =>
+    simp only [List.flatMap_cons, List.filter_append, ih]
+    congr 1
+    simp only [groupEntries, mkVar, List.filter_cons, Entry.isVar]
+    exact filter_isVar_map _ _ (fun _ => rfl)
+
+theorem varEntries_perm (f : NcFile) (hn : (f.root.vars.map Var.name).Nodup) (hd : (f.root.dims.map Prod.fst).Nodup) :
+    ((netcdfEntries f).filter Entry.isVar).Perm (expectedVarEntries f) := by
+  rw [netcdfEntries_eq]
+  simp only [List.filter_cons, Entry.isVar, List.filter_append, varEntries_groups, expectedVarEntries]
+  rw [filter_isVar_map _ _ (fun _ => rfl), filter_isVar_map _ _ (fun _ => rfl)]
+  -- the two root parts as images of the expected root map
+  let eR : Var → Entry := fun v =>
+    Entry.var [] v.name v.ty v.shape (v.dims.map (resolveDim f [])) v.attrs (!isCoord f v)
+  have hA : ((f.root.vars.filter fun v => !isCoord f v).map fun v =>
+      Entry.var [] v.name v.ty v.shape (v.dims.map fun d => (([] : List String), d)) v.attrs true)
+      = (f.root.vars.filter fun v => !isCoord f v).map eR := by
+    apply List.map_congr_left
+    intro v hv
+    have hc : isCoord f v = false := by simpa using (List.mem_filter.mp hv).2
+    simp [eR, hc, resolveDim_root]
+  have hC : ((f.root.vars.filter (isCoord f)).map fun v =>
+      Entry.var [] v.name v.ty v.shape (v.dims.map fun d => (([] : List String), d)) v.attrs false)
+      = (f.root.vars.filter (isCoord f)).map eR := by
+    apply List.map_congr_left
+    intro v hv
+    have hc : isCoord f v = true := (List.mem_filter.mp hv).2
+    simp [eR, hc, resolveDim_root]
+  have hc := (coordVars_perm f hn hd).map (fun v : Var =>
+      Entry.var [] v.name v.ty v.shape (v.dims.map fun d => (([] : List String), d)) v.attrs false)
+  rw [hC] at hc
+  rw [hA]
+  have hsplit : ((f.root.vars.filter fun v => !isCoord f v) ++ f.root.vars.filter (isCoord f)).Perm f.root.vars := by
+    have := List.filter_append_perm (fun v => !isCoord f v) f.root.vars
+    simpa using this
+  have h1 := hsplit.map eR
+  rw [List.map_append] at h1
+  refine List.Perm.trans ?_ (List.Perm.append_right _ h1)
+  rw [List.append_assoc, List.append_assoc]
+  exact List.Perm.append_left _ (List.perm_append_comm.trans (hc.append_right _))
+
+/-- the same list with the attributes as the FILE has them (what the property demands) -/
+def demandedVarEntries (f : NcFile) : List Entry :=
+  (f.root.vars.map fun v =>
+      Entry.var [] v.name v.ty v.shape (v.dims.map (resolveDim f [])) v.attrs (!isCoord f v)) ++
+  f.groups.flatMap fun g => g.vars.map fun v =>
+      Entry.var g.path v.name v.ty v.shape (v.dims.map (resolveDim f g.path)) v.attrs true
+
+theorem demanded_eq_expected (f : NcFile)
+    (hp : ∀ g ∈ f.groups, ∀ v ∈ g.vars, ∀ a ∈ v.attrs, a.1 ≠ "path") :
+    demandedVarEntries f = expectedVarEntries f := by
+  unfold demandedVarEntries expectedVarEntries
+  congr 1
+  apply List.flatMap_congr
+  intro g hg
+  apply List.map_congr_left
+  intro v hv
+  have : (v.attrs.filter fun a => a.1 ≠ "path") = v.attrs := by
+    apply List.filter_eq_self.mpr
+    intro a ha
+    simpa using hp g hg v hv a ha
+  rw [this]
+
 
 end Pydap.FileHandlers
